@@ -34,6 +34,7 @@ type covGadget struct {
 	kind   string // "RC", "LV" (variable table), "LC" (constant table), "probe"
 	widths []int  // RC
 	T, nq  int    // tables
+	consts map[int]bool // LV: entries inserted as CONSTANTS (mixed table); nil = all variable
 }
 
 type covCircuit struct {
@@ -48,6 +49,9 @@ func covCircuits(quick bool) []covCircuit {
 	lv := covGadget{kind: "LV", T: 5, nq: 3}
 	lc := covGadget{kind: "LC", T: 3, nq: 2}
 	lv2 := covGadget{kind: "LV", T: 2, nq: 1}
+	// mixed tables: variable and constant entries; last entry constant / first entry constant
+	lmLast := covGadget{kind: "LV", T: 4, nq: 2, consts: map[int]bool{1: true, 3: true}}
+	lmFirst := covGadget{kind: "LV", T: 3, nq: 2, consts: map[int]bool{0: true}}
 	out := []covCircuit{
 		{"RC", []covGadget{rc}},
 		{"LV", []covGadget{lv}},
@@ -56,6 +60,8 @@ func covCircuits(quick bool) []covCircuit {
 		{"LC+p+LV+RC+p", []covGadget{lc, pr, lv, rc, pr}},
 		{"p+LV+p+LV2+p", []covGadget{pr, lv, pr, lv2, pr}},
 		{"RC1+p+LV2", []covGadget{rc1, pr, lv2}},
+		{"LMlast", []covGadget{lmLast}},
+		{"p+LMfirst+RC1+LMlast+p", []covGadget{pr, lmFirst, rc1, lmLast, pr}},
 	}
 	if !quick {
 		out = append(out,
@@ -87,6 +93,9 @@ func (cc covCircuit) build() (*circ.C, covLayout) {
 			}
 		case "LV":
 			for i := 0; i < gd.T; i++ {
+				if gd.consts[i] {
+					continue
+				}
 				lay.entryAt[fmt.Sprintf("%d.%d", g, i)] = lay.nSec
 				lay.nSec++
 			}
@@ -136,7 +145,7 @@ func (cc covCircuit) build() (*circ.C, covLayout) {
 			case "LV", "LC":
 				t := logderivlookup.New(api)
 				for i := 0; i < gd.T; i++ {
-					if gd.kind == "LV" {
+					if gd.kind == "LV" && !gd.consts[i] {
 						t.Insert(s[lay.entryAt[fmt.Sprintf("%d.%d", g, i)]])
 					} else {
 						t.Insert(entryVal(i + 10*g))
@@ -282,7 +291,7 @@ func coverJob(c *vh.Check, cc covCircuit, cv ecc.ID, b string) {
 			tableOf[g] = nt
 			nt++
 			for i := 0; i < gd.T; i++ {
-				if gd.kind == "LV" {
+				if gd.kind == "LV" && !gd.consts[i] {
 					sec[lay.entryAt[fmt.Sprintf("%d.%d", g, i)]] = big.NewInt(entryVal(i + 10*g))
 				}
 			}
@@ -407,6 +416,9 @@ func coverJob(c *vh.Check, cc covCircuit, cv ecc.ID, b string) {
 			}
 			if gd.kind == "LV" {
 				for i := 0; i < gd.T; i++ {
+					if gd.consts[i] {
+						continue
+					}
 					at := lay.entryAt[fmt.Sprintf("%d.%d", g, i)]
 					queried := false
 					for q := 0; q < gd.nq; q++ {
